@@ -13,6 +13,7 @@
 long verif_alloc_count = 0;	/* libvna allocation calls so far */
 long verif_alloc_arm = 0;	/* fail the call with this ordinal (0 = off) */
 int verif_alloc_fired = 0;	/* set when the armed fault has fired */
+int verif_alloc_suspend = 0;	/* >0: neither count nor fail (observers) */
 const char *verif_alloc_fired_file = NULL;
 int verif_alloc_fired_line = 0;
 const char *verif_alloc_last_file = NULL;
@@ -20,6 +21,8 @@ int verif_alloc_last_line = 0;
 
 static int should_fail(const char *file, int line)
 {
+    if (verif_alloc_suspend > 0)
+	return 0;
     ++verif_alloc_count;
     verif_alloc_last_file = file;
     verif_alloc_last_line = line;
